@@ -129,6 +129,21 @@ def respects(c: Raw, partition: List[Set]) -> bool:
     return True
 
 
+def equal_means(k: int, positions: List[int]) -> List[Raw]:
+    """Elements 1 and 2 have the same exact mean (0-based) position sum(positions) / len(positions) although 1 is ranked
+    in c1 = len(positions) rankings and 2 in k * c1 rankings (3, 4, 5 are fillers present everywhere): under a measure
+    that ignores missing elements they must tie."""
+    fillers = [3, 4, 5]
+
+    def ranking(p, who):
+        r = [set(fillers[:p]), set(who), set(fillers[p:])]
+        return [b for b in r if b]
+    out: List[Raw] = [ranking(p, {1, 2}) for p in positions]
+    for _ in range(k - 1):
+        out += [ranking(p, {2}) for p in positions]
+    return out
+
+
 SCHEMES = {
     "unifying": [[0., 1., 1., 0., 1., 1.], [1., 1., 0., 1., 1., 0.]],
     "unifying-p0.5": [[0., 1., .5, 0., 1., .5], [.5, .5, 0., .5, .5, 0.]],
@@ -157,6 +172,9 @@ DATASETS = {
     # several incomparable components: the order igraph lists them in is one of many topological orders
     "branching-components": [[{3}, {1}], [{1}, {2, 5}, {4}]],
     "five-branching": [[{4}, {5}, {3}, {2}], [{1, 3}, {2, 5}]],
+    "equal-means-3-15": equal_means(5, [2, 2, 1]),            # totals 5 / 25 over 3 / 15 rankings
+    "equal-means-5-15": equal_means(3, [2, 1, 1, 1, 1]),      # totals 6 / 18 over 5 / 15 rankings
+    "equal-means-3-6": equal_means(2, [3, 2, 2]),             # totals 7 / 14 over 3 / 6 rankings
     "tie3": [[{1, 2}, {3}], [{1, 2}, {3}], [{2}, {1}, {3}]],
     "single": [[{7}], [{7}]],
     "five-cycle-ties": [[{1}, {2}, {3}, {4}, {5}], [{3, 4}, {5}, {1}, {2}], [{5}, {1, 2, 3}], [{2}, {4}], [{4}, {5}, {3}, {2}, {1}]],
